@@ -40,6 +40,8 @@ THEOREMS = [
     'C03.gen_stencil_eq_model', 'C03.gen_skipBin_eq_model', 'C03.pairsOf_eq_loops', 'C03.gen_scans_eq_model',
     'C03.scan_exhausted', 'C03.src_defaults_valid', 'C03.nlistCall_complete', 'C03.nlistCall_form_irrelevant',
     'C03.sweep_loops_as_modelled',
+    # statement audit: the driver's memoised acceptance test / pipeline is the model of the theorems; shape of the array
+    'C03.table_accept_as_modelled', 'C03.driver_pipeline_as_modelled', 'C03.nlistCall_shape',
 ]
 PARTIAL = {}
 RULE = ('systems: orthogonal / tilted / general (rotated, left-handed) cells with non-zero origin, all 8 pbc '
